@@ -36,7 +36,8 @@ PROPS = {
         'assumptions': ['the store commit itself is atomic and durable (bbolt meta-page swap + fsync, badger WAL): premise, not provable here; fsync, power loss and torn pages are outside the model and outside what a process kill exercises'],
     },
     'C06': {
-        'streams': [HIST('hist', 120, 1500), HIST('hist_catalog', 60, 600, ['--focus', 'catalog']), {'name': 'scale', 'quick': 1, 'thorough': 3, 'args': ['--backend', 'all']}],
+        'streams': [HIST('hist', 120, 1500), HIST('hist_catalog', 60, 600, ['--focus', 'catalog']), {'name': 'scale', 'quick': 1, 'thorough': 3, 'args': ['--backend', 'all']},
+                    {'name': 'conc', 'quick': 10, 'thorough': 150, 'args': ['--backend', 'all']}],
         'assumptions': ['names without ";", canonical ids'],
     },
     'C07': {
@@ -45,11 +46,11 @@ PROPS = {
         'assumptions': ['partial: the theorem covers the transaction-structure logic (every operation is one store transaction under single-writer / snapshot-reader discipline); data races, the Go memory model, goroutine scheduling and badger conflict detection cannot be exhibited by an executable Gallina model and are covered by the harness only (-race build, perturbed schedules, linearizability search)'],
     },
     'C08': {
-        'streams': [HIST('hist_sort', 120, 1500, ['--focus', 'sort'])],
+        'streams': [HIST('hist_sort', 120, 1500, ['--focus', 'sort']), {'name': 'scale', 'quick': 1, 'thorough': 3, 'args': ['--backend', 'all']}],
         'assumptions': ['sortedness inside one numeric regime (integers beyond 2^53 not mixed with floats: otherwise compare is not transitive, C08 needs C10); ties (compare-equal keys, absent vs nil) are free'],
     },
     'C09': {
-        'streams': [HIST('hist', 120, 1500), HIST('hist_sort', 60, 600, ['--focus', 'sort'])],
+        'streams': [HIST('hist', 120, 1500), HIST('hist_sort', 60, 600, ['--focus', 'sort']), {'name': 'scale', 'quick': 1, 'thorough': 3, 'args': ['--backend', 'all']}],
         'assumptions': ['"does not alter the query object" is about aliasing: immutable Gallina values make it true by construction in the model; that clause is covered by the harness snapshot of query getters only'],
     },
     'C10': {
@@ -61,15 +62,16 @@ PROPS = {
         'assumptions': ['msgpack and gob are identities on wire values (contract; exercised by every read-back)'],
     },
     'C12': {
-        'streams': [HIST('hist_ids', 120, 1500, ['--focus', 'ids'])],
+        'streams': [HIST('hist_ids', 120, 1500, ['--focus', 'ids']), {'name': 'fault', 'quick': 1, 'thorough': 4, 'args': ['--backend', 'all']}],
         'assumptions': ['canonical ids in the theorems (uuid.FromString also accepts braced/urn/32-hex forms, outside the property domain)'],
     },
     'C13': {
-        'streams': [HIST('hist_catalog', 120, 1500, ['--focus', 'catalog'])],
+        'streams': [HIST('hist_catalog', 120, 1500, ['--focus', 'catalog']), {'name': 'scale', 'quick': 1, 'thorough': 3, 'args': ['--backend', 'all']}, {'name': 'json', 'quick': 4, 'thorough': 40, 'args': ['--backend', 'all']}],
         'assumptions': ['names free of ";" (valid UTF-8 in runs, because the metadata record is JSON)'],
     },
     'C14': {
-        'streams': [HIST('hist_catalog', 100, 1200, ['--focus', 'catalog']), HIST('hist_index', 60, 600, ['--focus', 'index'])],
+        'streams': [HIST('hist_catalog', 100, 1200, ['--focus', 'catalog']), HIST('hist_index', 60, 600, ['--focus', 'index']),
+                    {'name': 'twin', 'quick': 4, 'thorough': 40, 'args': ['--backend', 'all']}],
         'assumptions': ['field names free of ";"'],
     },
     'C15': {
